@@ -354,3 +354,228 @@ Proof.
     revert H. apply (stinv_nonempty C es0 _ Hne). split; [|exact HM']. cbn [s_es].
     eapply Hard_trans; [exact HH|]. eapply swap_hard; eauto.
 Qed.
+
+(* ================================================================== the run *)
+(* the configurations (phase, state, oracle answer) a run passes through, in order *)
+Definition site := (phase * st * ev)%type.
+Fixpoint visited (C : cfg) (evs : list ev) (ph : phase) (s : st) : list site :=
+  match evs with
+  | [] => []
+  | e :: evs' =>
+      (ph, s, e) :: match step C ph s e with
+                    | Go ph' s' _ => visited C evs' ph' s'
+                    | Halt _ _ _ => []
+                    end
+  end.
+Definition rewire_visited (C : cfg) (es0 : list edge) (evs : list ev) : list site :=
+  match enter_outer C (mkS es0 (init_ds (c_M C) es0) O) false with
+  | Go ph s _ => visited C evs ph s
+  | Halt _ _ _ => []
+  end.
+
+Definition site_inv (C : cfg) (es0 : list edge) (x : site) : Prop :=
+  StInv C es0 (snd (fst x)) /\ PhInv C (snd (fst x)) (fst (fst x)).
+
+Lemma visited_inv C es0 : c_nE C = length es0 -> forall evs ph s,
+  StInv C es0 s -> PhInv C s ph -> Forall (site_inv C es0) (visited C evs ph s).
+Proof.
+  intros HnE. induction evs as [|e evs IH]; intros ph s HS HP; cbn [visited]; [constructor|].
+  constructor; [split; assumption|].
+  pose proof (step_inv C es0 ph s e HnE HS HP) as Hn.
+  destruct (step C ph s e) as [ph' s' acc|r s' acc]; cbn in Hn; [|constructor].
+  destruct Hn as [HS' HP']. apply IH; assumption.
+Qed.
+
+Lemma rewire_visited_inv fixed nodes tg es0 sl cl evs :
+  WF (Z.of_nat (length nodes)) es0 ->
+  let C := mk_cfg fixed nodes tg es0 sl cl in Forall (site_inv C es0) (rewire_visited C es0 evs).
+Proof.
+  intros HW C. unfold rewire_visited.
+  assert (HS0 : StInv C es0 (mkS es0 (init_ds (c_M C) es0) 0)).
+  { split; [apply Hard_refl; exact HW|apply init_ds_mirror]. }
+  pose proof (enter_outer_inv C es0 _ false HS0) as Hn.
+  destruct (enter_outer C _ false) as [ph s acc|r s acc]; cbn in Hn; [|constructor].
+  destruct Hn as [HS HP]. apply (visited_inv C es0 eq_refl evs ph s HS HP).
+Qed.
+
+(* whenever the Metropolis test is due -- i.e. [suitable] accepted the pair and the swap condition produced
+   proposals -- the apply step on the current state succeeds *)
+Definition apply_ok_at (C : cfg) (x : site) : Prop :=
+  match fst (fst x) with
+  | PhRandom u0 v0 c0 c1 props top bot =>
+      exists es' d', apply_swap (c_M C) (c_nE C) (s_es (snd (fst x))) (s_ds (snd (fst x))) u0 v0 c0 c1 props
+                     = Ok (es', d')
+  | _ => True
+  end.
+
+Lemma site_inv_apply_ok C es0 x : c_nE C = length es0 -> site_inv C es0 x -> apply_ok_at C x.
+Proof.
+  destruct x as [[ph s] e]. intros HnE [HS HP]. unfold apply_ok_at. cbn [fst snd] in *.
+  destruct ph as [| | | |u0 v0 c0 c1 props top bot]; try exact Logic.I.
+  pose proof HS as [HH HM]. pose proof HH as [_ [HW [Hlen _]]].
+  destruct HP as [m0 [m1 [a0 [a1 [prs [G0 [G1 [Hc0 [Hc1 [SF [Hf [Hs [Ht Hprops]]]]]]]]]]]]].
+  destruct (apply_swap_ok (c_M C) (s_es s) u0 v0 m0 m1 a0 a1 (c_fixed C) prs (s_ds s) HW G0 G1 SF Hf Hs Ht HM)
+    as [d' [Hap HM']].
+  rewrite HnE, <- Hlen, Hc0, Hc1, Hprops, Hap. eexists. eexists. reflexivity.
+Qed.
+
+Theorem rewire_apply_ok fixed nodes tg es0 sl cl evs :
+  WF (Z.of_nat (length nodes)) es0 ->
+  let C := mk_cfg fixed nodes tg es0 sl cl in Forall (apply_ok_at C) (rewire_visited C es0 evs).
+Proof.
+  intros HW C. eapply Forall_impl; [|apply rewire_visited_inv; exact HW].
+  intros x Hx. eapply site_inv_apply_ok; [|exact Hx]. reflexivity.
+Qed.
+
+(* a failed run failed at its last configuration, with the state untouched, at one of the three sites *)
+Lemma run_fail C es0 : c_nE C = length es0 -> es0 <> [] -> forall evs ph s,
+  StInv C es0 s -> PhInv C s ph ->
+  forall c sf tr, run C evs ph s = (Failed c, sf, tr) ->
+  exists pre ph' e', visited C evs ph s = pre ++ [(ph', sf, e')] /\
+                     step C ph' sf e' = Halt (Failed c) sf false /\ FailSite C ph' sf e' c.
+Proof.
+  intros HnE Hne. induction evs as [|e evs IH]; intros ph s HS HP c sf tr H; cbn [run visited] in *; [discriminate|].
+  pose proof (step_inv C es0 ph s e HnE HS HP) as Hn.
+  destruct (step C ph s e) as [ph' s' acc|r s' acc] eqn:St; cbn in Hn.
+  - destruct Hn as [HS' HP'].
+    destruct (run C evs ph' s') as [[r1 sf1] tr1] eqn:Er. cbv beta iota zeta in H.
+    assert (X : r1 = Failed c /\ sf1 = sf) by (split; congruence). destruct X as [-> ->]. clear H.
+    destruct (IH ph' s' HS' HP' c sf tr1 Er) as [pre [ph2 [e2 [Hv [Hst Hf]]]]].
+    exists ((ph, s, e) :: pre), ph2, e2. rewrite Hv. split; [reflexivity|]. split; assumption.
+  - assert (X : r = Failed c /\ s' = sf) by (split; congruence). destruct X as [-> ->]. clear H.
+    destruct (step_fail C es0 ph s e c sf acc HnE Hne HS HP St) as [-> [-> Hf]].
+    exists [], ph, e. split; [reflexivity|]. split; [exact St|exact Hf].
+Qed.
+
+Theorem rewire_fail fixed nodes tg es0 sl cl evs :
+  WF (Z.of_nat (length nodes)) es0 ->
+  let C := mk_cfg fixed nodes tg es0 sl cl in
+  forall c sf tr, rewire C es0 evs = (Failed c, sf, tr) ->
+    (es0 = [] /\ c = E_INDEX) \/
+    (es0 <> [] /\ exists pre ph e, rewire_visited C es0 evs = pre ++ [(ph, sf, e)] /\
+                                  step C ph sf e = Halt (Failed c) sf false /\ FailSite C ph sf e c).
+Proof.
+  intros HW C c sf tr H.
+  assert (D : es0 = [] \/ es0 <> []) by (destruct es0; [left; reflexivity|right; discriminate]).
+  destruct D as [E|Hne].
+  - left. split; [exact E|]. subst es0. cbn in H. congruence.
+  - right. split; [exact Hne|].
+    unfold rewire in H. unfold rewire_visited.
+    assert (HS0 : StInv C es0 (mkS es0 (init_ds (c_M C) es0) 0)).
+    { split; [apply Hard_refl; exact HW|apply init_ds_mirror]. }
+    pose proof (enter_outer_inv C es0 _ false HS0) as Hn.
+    destruct (enter_outer C _ false) as [ph s acc|r s acc] eqn:Eo; cbn in Hn.
+    + destruct Hn as [HS HP]. apply (run_fail C es0 eq_refl Hne evs ph s HS HP c sf tr H).
+    + exfalso. assert (X : r = Failed c) by congruence. rewrite X in Eo. apply enter_outer_fail in Eo. revert Eo. apply (stinv_nonempty C es0 _ Hne HS0).
+Qed.
+
+(* ------------------------------------------------------------------ the causes, seen from the start network *)
+Lemma tdeg_pos es v t : (0 < tdeg es v t)%nat <-> exists e, In e es /\ et e = t /\ (ea e = v \/ eb e = v).
+Proof.
+  unfold tdeg. rewrite count_stub_pos_In. unfold stubs. rewrite in_flat_map. split.
+  - intros [e [He [X|[X|[]]]]]; injection X as <- <-; exists e; tauto.
+  - intros [e [He [<- [<-|<-]]]]; exists e; (split; [exact He|]); cbn; auto.
+Qed.
+
+Lemma annot_vertex nodes es v t : annotb nodes es = true -> (0 < tdeg es v t)%nat ->
+  Nat.ltb t (length (jd_of nodes v)) = true.
+Proof.
+  unfold annotb. rewrite forallb_forall. intros Ha Hd. apply tdeg_pos in Hd. destruct Hd as [e [He [<- Hv]]].
+  apply Ha in He. unfold annot_ok in He. apply andb_true_iff in He. destruct Hv as [<-|<-]; tauto.
+Qed.
+
+(* the per-vertex per-topology degrees are kept, so sufficient annotations of the start network stay sufficient *)
+Lemma annot_kept nodes es0 es : (forall v t, tdeg es v t = tdeg es0 v t) -> annotb nodes es0 = true -> annotb nodes es = true.
+Proof.
+  intros Hd Ha. unfold annotb. apply forallb_forall. intros e He. unfold annot_ok. apply andb_true_iff.
+  split; apply (annot_vertex nodes es0); try exact Ha; rewrite <- Hd; apply tdeg_pos; exists e; auto.
+Qed.
+
+Lemma den_zero_not_pos nodes tg u0 v0 a0 a1 bot :
+  den_loop nodes tg u0 v0 a0 a1 (1 # 1) = DenOk bot -> Qeq_bool bot (0 # 1) = true -> ~ PosT tg.
+Proof.
+  intros Hd Hb HP. apply (den_loop_pos nodes tg u0 v0 HP) in Hd; [|reflexivity].
+  apply Qeq_bool_iff in Hb. rewrite Hb in Hd. discriminate.
+Qed.
+
+(* the classification of the failure statuses of rewire on a well-formed network *)
+Theorem rewire_failure_causes fixed nodes tg es0 sl cl evs :
+  WF (Z.of_nat (length nodes)) es0 ->
+  let C := mk_cfg fixed nodes tg es0 sl cl in
+  forall c sf tr, rewire C es0 evs = (Failed c, sf, tr) ->
+    (c = E_PROTOCOL /\ exists pre ph e, rewire_visited C es0 evs = pre ++ [(ph, sf, e)] /\ ev_ok C ph sf e = false) \/
+    (c = E_INDEX /\ (es0 = [] \/ annotb nodes es0 = false)) \/
+    (c = E_MCMC /\ ~ PosT tg).
+Proof.
+  intros HW C c sf tr H.
+  pose proof (rewire_inv fixed nodes tg es0 sl cl evs HW) as Hinv. cbv zeta in Hinv. fold C in Hinv. rewrite H in Hinv.
+  destruct Hinv as [[[_ [_ [_ [Hdeg _]]]] _] _].
+  destruct (rewire_fail fixed nodes tg es0 sl cl evs HW c sf tr H) as [[E ->]|[Hne [pre [ph [e [Hv [_ Hf]]]]]]].
+  - right. left. split; [reflexivity|left; exact E].
+  - destruct Hf as [Hok|e0 c0 sc e1 c1 a0 a1 _ _ _ _ _ _ Ha|e0 c0 sc e1 c1 a0 a1 bot _ _ _ _ _ Hd Hb].
+    + left. split; [reflexivity|]. exists pre, ph, e. split; [exact Hv|exact Hok].
+    + right. left. split; [reflexivity|]. right. cbn [c_nodes C mk_cfg] in Ha.
+      destruct (annotb nodes es0) eqn:E0; [|reflexivity]. rewrite (annot_kept nodes es0 (s_es sf) Hdeg E0) in Ha. discriminate.
+    + right. right. split; [reflexivity|]. eapply den_zero_not_pos; eauto.
+Qed.
+
+Theorem rewire_failure_codes fixed nodes tg es0 sl cl evs :
+  WF (Z.of_nat (length nodes)) es0 ->
+  forall c sf tr, rewire (mk_cfg fixed nodes tg es0 sl cl) es0 evs = (Failed c, sf, tr) ->
+    c = E_PROTOCOL \/ c = E_INDEX \/ c = E_MCMC.
+Proof.
+  intros HW c sf tr H. destruct (rewire_failure_causes fixed nodes tg es0 sl cl evs HW c sf tr H) as [[E _]|[[E _]|[E _]]]; auto.
+Qed.
+
+(* a valid script: every oracle answer of the run fits its phase *)
+Definition script_okb (C : cfg) (es0 : list edge) (evs : list ev) : bool :=
+  forallb (fun x : site => ev_ok C (fst (fst x)) (snd (fst x)) (snd x)) (rewire_visited C es0 evs).
+
+(* THE CLEAN RUN: a network with at least one edge, annotations long enough for the topology indices of the
+   incident edges, positive stored weights, valid oracle answers: the run finishes, or the script ends first *)
+Theorem rewire_clean_run fixed nodes tg es0 sl cl evs :
+  WF (Z.of_nat (length nodes)) es0 -> es0 <> [] -> annotb nodes es0 = true -> PosT tg ->
+  let C := mk_cfg fixed nodes tg es0 sl cl in
+  script_okb C es0 evs = true ->
+  let '(r, sf, tr) := rewire C es0 evs in r = Finished \/ r = Exhausted.
+Proof.
+  intros HW Hne Ha HP C Hs. destruct (rewire C es0 evs) as [[r sf] tr] eqn:H.
+  destruct r as [| |c]; [left; reflexivity|right; reflexivity|exfalso].
+  destruct (rewire_failure_causes fixed nodes tg es0 sl cl evs HW c sf tr H)
+    as [[_ [pre [ph [e [Hv Hok]]]]]|[[_ [E|E]]|[_ E]]].
+  - unfold script_okb in Hs. fold C in Hv. rewrite Hv in Hs. rewrite forallb_forall in Hs.
+    specialize (Hs (ph, sf, e)). cbn [fst snd] in Hs. change (ev_ok C ph sf e = false) in Hok.
+    rewrite Hs in Hok; [discriminate|].
+    apply in_app_iff. right. left. reflexivity.
+  - exact (Hne E).
+  - congruence.
+  - exact (E HP).
+Qed.
+
+(* ================================================================== method level *)
+(* any well-formed graph, any two corners the code could be handed (permutations of the real corners of u0 in
+   motif m0 and of v0 in motif m1): if [suitable] accepts them and the swap condition delivers proposals, the
+   apply step succeeds (no "edge already present", no networkx / draw-set error, no edge-count mismatch), the
+   draw set still mirrors the edge set and the hard clauses hold for the new graph *)
+Theorem apply_after_accept N nodes tg fixed es u0 v0 m0 m1 c0 c1 a0 a1 props top bot :
+  WF N es ->
+  permb c0 (corner es u0 m0) = true -> permb c1 (corner es v0 m1) = true ->
+  attrs es u0 c0 = Some a0 -> attrs es v0 c1 = Some a1 ->
+  suitable es u0 v0 a0 a1 = true ->
+  swap_pre fixed nodes tg u0 v0 a0 a1 = PNeed props top bot ->
+  exists es' d', apply_swap N (length es) es (init_ds N es) u0 v0 c0 c1 props = Ok (es', d')
+                 /\ Mirror N es' d' /\ (Z.of_nat (length nodes) = N -> Hard nodes es nodes es').
+Proof.
+  intros HW P0 P1 A0 A1 Su Sp.
+  destruct (genuine_of_permb _ _ _ _ _ HW P0) as [b0 [B0 [G0 Hc0]]]. rewrite A0 in B0. injection B0 as <-.
+  destruct (genuine_of_permb _ _ _ _ _ HW P1) as [b1 [B1 [G1 Hc1]]]. rewrite A1 in B1. injection B1 as <-.
+  assert (SF : SuitFacts es u0 v0 m0 m1 a0 a1).
+  { apply suitable_facts; [| |exact Su].
+    - intros x Hx. apply (Permutation_in _ G0) in Hx. apply corner_edges_In in Hx. tauto.
+    - intros x Hx. apply (Permutation_in _ G1) in Hx. apply corner_edges_In in Hx. tauto. }
+  destruct (swap_pre_pairs _ _ _ _ _ _ _ _ _ _ (sf_len _ _ _ _ _ _ _ SF) Sp) as [prs [Hf [Hs [Ht Hprops]]]].
+  destruct (apply_swap_ok N es u0 v0 m0 m1 a0 a1 fixed prs (init_ds N es) HW G0 G1 SF Hf Hs Ht (init_ds_mirror N es))
+    as [d' [Hap HM']].
+  exists (swap_es' es u0 v0 m0 m1 fixed prs), d'. rewrite Hc0, Hc1, Hprops. split; [exact Hap|]. split; [exact HM'|].
+  intros HN. eapply swap_hard; eauto.
+Qed.
